@@ -260,12 +260,31 @@ func runC01(c *Ctx) {
 func readTypedAll(te *typeEntry, gr greader, out reflect.Value, r *gen.Rand) (reflect.Value, error) {
 	n := out.Len()
 	pos := 0
+	// half of the time the caller reads into one batch slice that it reuses (still holding the
+	// previous rows) and keeps shallow copies of the rows, as applications do
+	reuse := r.Bool()
+	var batch reflect.Value
+	if reuse {
+		batch = te.ops.NewRows(100)
+		if n > 100 {
+			batch = te.ops.NewRows(n)
+		}
+	}
 	for guard := 0; pos < n; guard++ {
 		k := gen.Pick(r, []int{1, 2, 7, 64, 100, n})
 		if pos+k > n {
 			k = n - pos
 		}
-		m, err := te.ops.Read(gr, out.Slice(pos, pos+k))
+		var m int
+		var err error
+		if reuse {
+			m, err = te.ops.Read(gr, batch.Slice(0, k))
+			for i := 0; i < m; i++ {
+				out.Index(pos + i).Set(batch.Index(i))
+			}
+		} else {
+			m, err = te.ops.Read(gr, out.Slice(pos, pos+k))
+		}
 		pos += m
 		if err != nil {
 			if errors.Is(err, io.EOF) {
